@@ -95,6 +95,21 @@ Example C20_cut_once_nonvacuous :
 Proof. exact cut_once_example. Qed.
 Print Assumptions C20_cut_once_nonvacuous.
 
+(** … and the hypothesis [sent_above] cannot be dropped: with packet numbers of several
+    packet number spaces (what the ackhandler feeds the sender) three losses of packets all
+    sent before the first reduction cut the window three times. *)
+Example C20_cut_once_needs_monotone_pns :
+  let s := run (new_sender 1280 true 100000000)
+               [Sent 10 0 1280 true 100000000; Sent 20 1 1280 true 100000000; Sent 30 2 1280 true 100000000;
+                Sent 40 3 1280 true 100000000; Sent 50 4 1280 true 100000000; Sent 60 5 1280 true 100000000;
+                Sent 70 0 1280 true 100000000] in
+  let s1 := step s (Lost 0 1280 8960 0) in
+  let s2 := step s1 (Lost 1 1280 8960 0) in
+  let s3 := step s2 (Lost 2 1280 8960 0) in
+  cwnd s = 40960 /\ cwnd s1 = 28672 /\ cwnd s2 = 20070 /\ cwnd s3 = 14049.
+Proof. exact pn_space_mixing_cuts_thrice. Qed.
+Print Assumptions C20_cut_once_needs_monotone_pns.
+
 (** (b2) The window never shrinks on an ACK — nor on any event other than a loss, a
     retransmission timeout or a migration. *)
 Theorem C20_ack_never_shrinks : forall s o, reno s = true -> 0 <= mds s -> may_shrink o = false ->
@@ -115,6 +130,22 @@ Theorem C20_cwnd_limited_means : forall s bif, is_cwnd_limited s bif = true ->
   cwnd s <= bif \/ cwnd s - bif <= cc_maxBurstPackets * mds s \/ (cwnd s < ssthresh s /\ Z.quot (cwnd s) 2 < bif).
 Proof. exact is_cwnd_limited_spec. Qed.
 Print Assumptions C20_cwnd_limited_means.
+
+(** (d) sentPacketHandler.SendMode releases new ack-eliciting data ("any") only while the
+    bytes in flight are below the congestion window — and the sender is not
+    amplification-limited, tracks fewer packets than both caps, owes no probe packet and
+    the pacer has budget. *)
+Theorem C20_send_gate : forall tracked amp probes pto bif cw bud,
+  pto <> sm_SendAny ->
+  send_mode (G tracked amp probes pto bif cw bud) = sm_SendAny ->
+  bif < cw /\ amp = false /\ tracked < sm_maxOutstandingSentPackets /\ tracked < sm_maxTrackedSentPackets /\
+  probes <= 0 /\ bud = true.
+Proof. exact send_gate. Qed.
+Print Assumptions C20_send_gate.
+
+Example C20_send_gate_nonvacuous : send_mode (G 3 false 0 0 2560 40960 true) = sm_SendAny /\ 0 <> sm_SendAny.
+Proof. exact send_gate_nonvacuous. Qed.
+Print Assumptions C20_send_gate_nonvacuous.
 
 (** (e) Pacer. [PInv]: 0 <= budget < 2^40, 0 < mds <= 2^30; [PT]: last send time in [0,2^62);
     [pop_ok]: send times in (0,2^62), sizes >= 0, bandwidth any uint64 value.
